@@ -216,3 +216,80 @@ def strict_ranges_prestate(h):
             'same(s._strictbounds, built) and strict is True and same(smin, s._strictMin) and same(smax, s._strictMax)',
             strict=seen.get('strict'), smin=seen.get('min'), smax=seen.get('max'), **e)
     h.check('objective-marked-stale-so-the-ranges-are-in-force-at-the-next-evaluation', 's._live is False', **e)
+
+
+@contract('C02/_boundsconstraints', ['C02', 'C03'], A + '._boundsconstraints', native=False)
+def boundsconstraints(h):
+    """which bounds constraint a solver couples to the user's constraints: none (the identity) when strict ranges are off
+    or no option is given (the default mode relies on the wrapped objective and the clipped guesses instead); otherwise the
+    constraint built by constraints.boundsconstrain from EXACTLY the recorded limits, symbolic unless clip is given
+    (then symbolic = clip), clipping unless clip=False; symbolic without clipping is refused"""
+    if not h.is_sym():
+        h.unsupported('symbolic only')
+    strict = h.choice('useStrictRange', [True, False])
+    sym = h.choice('symbolic', ['omitted', None, True, False])
+    clip = h.choice('clip', ['omitted', None, True, False])
+    mn, mx = h.vec('strictMin', 2, nd=True), h.vec('strictMax', 2, nd=True)
+    s = h.obj(A, _useStrictRange=strict, _strictMin=mn, _strictMax=mx)
+    built = h.fn('BUILT_BOUNDS_CONSTRAINT', ret='same')
+    calls = []
+
+    def bcon(I, c, args, kwargs):
+        calls.append((list(args), dict(kwargs)))
+        return built
+    h.set_summaries({('mystic/constraints.py', 'boundsconstrain'): bcon})
+    kw = {}
+    if sym != 'omitted':
+        kw['symbolic'] = sym
+    if clip != 'omitted':
+        kw['clip'] = clip
+    r, exc = h.call_raises(h.getattr(s, '_boundsconstraints'), **kw)
+    sy = None if sym == 'omitted' else sym
+    cl = None if clip == 'omitted' else clip
+    if sy is None and cl is not None:
+        sy = bool(cl)
+    elif cl is None:
+        cl = True
+    if not strict or sy is None:
+        h.check('identity-when-ranges-are-off-or-no-option-is-given', 'ok', ok=(exc is None and not calls))
+        if exc is None:
+            x = h.vec('x', 2)
+            h.check('identity-when-ranges-are-off-or-no-option-is-given', 'same(y, x)', y=h.call(r, x), x=x)
+    elif sy and not cl:
+        h.check('symbolic-without-clipping-is-refused', 'ok', ok=(exc == 'NotImplementedError' and not calls))
+    else:
+        h.check('built-from-exactly-the-recorded-limits-in-the-resolved-mode', 'ok',
+                ok=(exc is None and r is built and len(calls) == 1 and calls[0][0][0] is mn and calls[0][0][1] is mx
+                    and bool(calls[0][1].get('symbolic')) == bool(sy) and bool(calls[0][1].get('clip')) == bool(cl)))
+
+
+@contract('C02/constraints.boundsconstrain/impose_bounds-mode', ['C02', 'C03', 'C16'], 'mystic/constraints.py::boundsconstrain', native=False)
+def boundsconstrain(h):
+    """symbolic=False: the constraint is impose_bounds({i: (min[i], max[i])}, clip=clip) around the identity -- every
+    coordinate gets its own interval, in order, in the clip mode asked for"""
+    if not h.is_sym():
+        h.unsupported('symbolic only')
+    clip = h.choice('clip', [True, False])
+    mn, mx = h.vec('min', 3, nd=True), h.vec('max', 3, nd=True)
+    seen = []
+    inner = h.fn('IMPOSED', ret='same')
+
+    def imp(I, c, args, kwargs):
+        seen.append((list(args), dict(kwargs)))
+        return Builtin_('decorator', lambda I_, a, k: (seen.append(('decorated', a[0])), inner)[1])
+    from pyvc.values import Builtin as Builtin_
+    h.set_summaries({('mystic/constraints.py', 'impose_bounds'): imp})
+    r = h.call(h.get('mystic/constraints.py::boundsconstrain'), mn, mx, symbolic=False, clip=clip)
+    ok = len(seen) == 2 and seen[1][0] == 'decorated' and r is inner
+    h.check('impose_bounds-applied-once-around-a-function', 'ok', ok=ok)
+    if not ok:
+        return
+    args, kw = seen[0]
+    cell = h.st.heap[args[0]] if hasattr(args[0], 'kind') and args[0].kind == 'dict' else None
+    h.check('one-interval-per-coordinate-in-the-asked-clip-mode', 'ok',
+            ok=(cell is not None and sorted(cell) == [0, 1, 2] and kw.get('clip') is clip and 'index' not in kw and len(args) == 1))
+    if cell is not None and sorted(cell) == [0, 1, 2]:
+        for i in range(3):
+            h.check('interval-i-is-min-i-max-i', 'b[0] == lo and b[1] == hi and len(b) == 2', b=cell[i], lo=h.ev('m[%d]' % i, m=mn), hi=h.ev('m[%d]' % i, m=mx))
+    x = h.vec('x', 3)
+    h.check('the-decorated-function-is-the-identity', 'same(y, x)', y=h.call(seen[1][1], x), x=x)
